@@ -193,6 +193,30 @@ theorem byte_substitution_rejected (p s : Bytes) (x y : Nat) (hxy : x % 256 ≠ 
 example : computeCRC32 ([0x12] ++ 0x34 :: be32 (computeCRC32 [0x12, 0x34])) = 0#32 ∧ 0x34 % 256 ≠ 0xb4 % 256 := by
   decide +kernel
 
+/-- **any change confined to at most four consecutive bytes changes the checksum** — the byte-level form of
+`burst32_detected`, stated on the code's table-driven checksum: `w` and `w'` are the old and new contents of the
+window (same length ≤ 4), `p` and `s` what precedes and follows -/
+theorem window4_detected (p s w w' : Bytes) (hl : w.length = w'.length) (h4 : w.length ≤ 4)
+    (hw : ∀ b ∈ w, b < 256) (hw' : ∀ b ∈ w', b < 256) (hne : w ≠ w') :
+    computeCRC32 (p ++ w ++ s) ≠ computeCRC32 (p ++ w' ++ s) := by
+  intro h
+  unfold computeCRC32 at h
+  rw [C10.update_append, C10.update_append, C10.update_append, C10.update_append] at h
+  have h1 := update_inj _ _ s h
+  rw [C10.update_eq_spec _ w hw, C10.update_eq_spec _ w' hw', crcFrom_bits, crcFrom_bits] at h1
+  have := feedBits_window_inj _ _ _ (by rw [flatBits_length, flatBits_length, hl])
+    (by rw [flatBits_length]; omega) h1
+  exact hne (flatBits_inj w w' hl hw hw' this)
+
+theorem window4_rejected (p s w w' : Bytes) (hl : w.length = w'.length) (h4 : w.length ≤ 4)
+    (hw : ∀ b ∈ w, b < 256) (hw' : ∀ b ∈ w', b < 256) (hne : w ≠ w')
+    (hvalid : computeCRC32 (p ++ w ++ s) = 0#32) : computeCRC32 (p ++ w' ++ s) ≠ 0#32 := by
+  intro h
+  exact window4_detected p s w w' hl h4 hw hw' hne (hvalid.trans h.symm)
+
+example : computeCRC32 ([0x12] ++ [0x34, 0x56] ++ be32 (computeCRC32 [0x12, 0x34, 0x56])) = 0#32 ∧
+    ([0x34, 0x56] : Bytes) ≠ [0x56, 0x34] := by decide +kernel
+
 -- the premises are satisfiable and the conclusion is not trivial: a valid 2+4-byte unit, a different prefix
 example : computeCRC32 ([0x12, 0x34] ++ be32 (computeCRC32 [0x12, 0x34])) = 0#32 ∧
     computeCRC32 [0x12, 0x35, 0x00] ≠ computeCRC32 [0x12, 0x34] := by decide +kernel
